@@ -197,7 +197,9 @@ def array_flags(ctx, P, rule="ARRAY-FLAGS", floor=60, only=None):
             ftxt = a[flags] if len(a) > flags else ""
             ok = "NPY_ARRAY_IN_ARRAY" in ftxt or ("NPY_ARRAY_C_CONTIGUOUS" in ftxt and "NPY_ARRAY_ALIGNED" in ftxt) \
                 or "NPY_ARRAY_INOUT_ARRAY" in ftxt or "NPY_ARRAY_CARRAY" in ftxt
-            ctx.ob(rule, "%s@%d" % (fn.name, k), ok, tu.loc(c), "%s(..., %s)" % (nm, ftxt))
+            forced = "FORCECAST" in ftxt
+            ctx.ob(rule, "%s@%d" % (fn.name, k), ok and not forced, tu.loc(c), "%s(..., %s)" % (nm, ftxt) if not forced else
+                   "%s(..., %s): NPY_ARRAY_FORCECAST converts out-of-range and fractional values silently instead of refusing them" % (nm, ftxt))
             k += 1
             n += 1
     ctx.floor(rule, floor if only is None else 1)
@@ -586,6 +588,11 @@ ARG_CTYPE = {"i": ("int", "unsigned int", "tsk_id_t", "int32_t"), "I": ("unsigne
 BUILD_SIGN_OK = {("Tree_get_options", "i"): "tree option bits are all below 2^31", ("Tree_copy", "i"): "tree option bits are all below 2^31"}
 
 
+# (function, variable): unchecked unsigned units confirmed by reading to carry no caller-supplied value
+UNCHECKED_UNIT_OK = {("Tree_init", "options"),      # the option word tskit.Tree composes itself from its boolean arguments
+                     }
+
+
 def _used_as_index(P, tu, fn, var, depth=0):
     """Why `var` is an identifier / index in fn: range-compared, cast or passed as tsk_id_t, bounds-checked, or used as a subscript."""
     bare = var.lstrip("*")
@@ -658,9 +665,8 @@ def format_types(ctx, P, rule="FORMAT-TYPES", only=None):
                     # a QUANTITY (anything but a word of option bits) must not be reduced modulo 2^32 either: the unchecked unit
                     # is acceptable only for a destination that is used as a flags word
                     dty = (strip(d.kids[0]).ty or "") if (d.k == "UnaryOperator" and d.op == "&") else ""
-                    is_flags = dty == "tsk_flags_t" or re.search(r"option|flag", var) is not None
-                    if not is_flags:
-                        why = "a quantity of type `%s`, not a word of option bits" % (dty or "?")
+                    if (fn.name, var) not in UNCHECKED_UNIT_OK:
+                        why = "a caller-supplied `%s` (the module parses every other unsigned argument through uint32_converter, which refuses negative and >= 2**32 values)" % (dty or "?")
                 n += 1
                 ctx.ob(rule, "%s|arg%d:%s|unchecked" % (fn.name, i, u), why is None, tu.loc(pc.call),
                        "format `%s` (no overflow check) fills `%s`, an option / size word" % (u, var) if why is None else
